@@ -54,6 +54,7 @@ CHECKS = {
     'C13': {
         'text': 'With every control point its own symbol and pairwise different sizes: ctrlpts2d, Surface/VolumeManager, find_ctrlpts, flips, transpose, extract_curves/construct_surface, extract_surfaces/construct_volume (u,v,w), extract_isosurface and sweep_vector all address the point the evaluators (== Cox-de Boor definition) use for the same (u,v,w).',
         'note': COMMON_NOTE + 'Bounds: nets 2x3, 3x2, 3x4, 2x3x4, 3x2x2, 4x3x2 for the instance runs; in addition the flat index expressions of the current source are decided for ALL sizes 1..64 by an AST -> z3 (Int) check (in range, injective, convention).',
+        'technique': 'bounded symbolic execution + z3 on nets with pairwise different sizes; AST -> z3 integer encoding of the flat index expressions for all sizes 1..64',
     },
     'C14': {
         'text': 'export -> import round trips with every number a symbol printed as an opaque token: JSON (curves, surfaces with spline/freeform/container trims, volumes, containers of 1-3), smesh, vmesh, txt (1-D/2-D, custom separators), csv, compatibility *_file helpers: degrees, sizes, knot vectors, control points, weights, delta, trims and evaluated points identical; documented row/column layout of the files.',
